@@ -6,7 +6,11 @@ HERE = os.path.dirname(os.path.dirname(os.path.abspath(__file__)))
 
 TRUST = ("Trusted base: go/types, go/ssa (x/tools v0.29.0), the keto call graph construction described in DESIGN.md §3 (library code calls back "
          "into keto only through values handed to it on that path), popx.Transaction commit/rollback, pop emitting the fragments it is given, "
-         "herodot's status mapping, protobuf-go decoding invariants. The rules are necessary conditions of the property, not a proof of the behaviour.")
+         "herodot's status mapping, protobuf-go decoding invariants; the loader's two normalisations (renamed declarations mapped back through "
+         "/verif/symbols.json, go/ssa's result spilling in functions with defers undone: DESIGN.md §9.7, §9.9). The rules are necessary conditions of the "
+         "property, not a proof of the behaviour; they follow logic into helpers (parameters stand for arguments, results for returns) and judge what holds "
+         "on a path rather than how it is tested, and were exercised against 131 seeded defects and 114 behaviour-preserving refactorings written by agents "
+         "that saw only the property texts (DESIGN.md §9.5, §9.9).")
 
 # id -> (design section, technique, text)
 CLAIMED = {}
